@@ -16,6 +16,11 @@ Streams
              every import form, aliases, the same function name defined in two modules and tied
              together by try/except-ImportError or if/else imports; references across files,
              announced file/package renames, behaviour = output of `python -m <main>`.
+  kwparam    the same clauses on generated programs whose parameters are passed BY KEYWORD at call
+             sites (gen/kwparams.py, props/c05_kwparams.py): positional-or-keyword, keyword-only
+             (after `*` and after `*args`, with and without default), positional-only and `**`
+             parameters of functions, methods, `__init__`, nested functions and lambdas; rename
+             from the parameter, from a use in the body and from the call-site keyword.
 """
 import ast
 import os
@@ -25,6 +30,8 @@ from common import short
 from gen import scopes as G
 from gen import multimod as GM
 from props import c05_multimod as MM
+from props import c05_kwparams as KW
+from gen import kwparams as GK
 
 MODELS = ['Scopes', 'Refs', 'RefsMulti']
 LEAN_TARGETS = ['JediModel.Props.C05', 'JediModel.Drivers.C05']
@@ -330,10 +337,29 @@ def analyse_any(item):
         return analyse(x)
     if kind == 'attr':
         return analyse_attr(x)
+    if kind == 'kw':
+        return KW.analyse(x)
     return MM.analyse_project(x)
 
 
-COST = {'prog': 1, 'attr': 12, 'mm': 30}
+COST = {'prog': 1, 'attr': 12, 'mm': 30, 'kw': 30}
+
+
+def kwparam_items(ctx):
+    """stratified: over any 6 consecutive programs every kind of parameter stands in every kind of
+    callable; every program has the three keyword-only forms; every 4th program has one of the
+    shapes in which a call keyword is spelled like a parameter it cannot bind"""
+    items = []
+    n = ctx.size(14, 300)
+    for i in range(n):
+        k = i % len(GK.KINDS)
+        plan = {'kinds': GK.KINDS[k:] + GK.KINDS[:k]}
+        if i % 4 == 3:
+            plan['collide'] = GK.COLLIDE_KINDS[(i // 4) % len(GK.COLLIDE_KINDS)]
+        items.append({'seed': '%s-kw-%d' % (ctx.seed, i), 'plans': [plan], 'tag': 'random'})
+    for w in KW.WITNESSES:
+        items.append({'program': w, 'tag': 'witness'})
+    return items
 
 
 def balanced(items, jobs=14):
@@ -389,23 +415,31 @@ def corpus_projects():
 
 def run(ctx):
     os.makedirs(EMPTY_PROJECT, exist_ok=True)
-    progs = programs(ctx)
-    attr_seeds = ['%s-attr-%d' % (ctx.seed, i) for i in range(ctx.size(12, 400))]
-    mm_items = multimod_items(ctx)
-    items = [['prog', p] for p, _ in progs] + [['attr', s_] for s_ in attr_seeds] + [['mm', it] for it in mm_items]
+    # debugging aid: VERIF_C05_STREAMS=kw,mm,attr,prog restricts the run to some streams (default: all)
+    only = set(filter(None, os.environ.get('VERIF_C05_STREAMS', '').split(',')))
+    progs = programs(ctx) if not only or 'prog' in only else []
+    attr_seeds = ['%s-attr-%d' % (ctx.seed, i) for i in range(ctx.size(12, 400))] if not only or 'attr' in only else []
+    mm_items = multimod_items(ctx) if not only or 'mm' in only else []
+    kw_items = kwparam_items(ctx) if not only or 'kw' in only else []
+    if only:
+        ctx.notes.append('RESTRICTED RUN (VERIF_C05_STREAMS=%s): not the full check' % ','.join(sorted(only)))
+    items = [['prog', p] for p, _ in progs] + [['attr', s_] for s_ in attr_seeds] + [['mm', it] for it in mm_items] \
+        + [['kw', it] for it in kw_items]
     ordered, pos = balanced(items)
     import time
     t_pool = time.time()
     res = common.parallel_map('props.c05', 'analyse_any', ordered)
-    ctx.notes.append('worker pool (%d items: %d programs, %d attribute seeds, %d projects): %.1f s wall, load %s'
-                     % (len(items), len(progs), len(attr_seeds), len(mm_items), time.time() - t_pool,
+    ctx.notes.append('worker pool (%d items: %d programs, %d attribute seeds, %d projects, %d keyword-parameter programs): '
+                     '%.1f s wall, load %s'
+                     % (len(items), len(progs), len(attr_seeds), len(mm_items), len(kw_items), time.time() - t_pool,
                         open('/proc/loadavg').read().split()[0]))
     results = [None] * len(items)
     for k, i in enumerate(pos):
         results[i] = res[k]
     outs = [fix_keys(o) for o in results[:len(progs)]]
     attr_results = results[len(progs):len(progs) + len(attr_seeds)]
-    mm_results = results[len(progs) + len(attr_seeds):]
+    mm_results = results[len(progs) + len(attr_seeds):len(progs) + len(attr_seeds) + len(mm_items)]
+    kw_results = results[len(progs) + len(attr_seeds) + len(mm_items):]
     reqs = []
     how = 'jedi.Script(source).rename(line, column, new_name=...) / get_references; see harness/props/c05.py:analyse'
     for out, (_, tag) in zip(outs, progs):
@@ -420,7 +454,7 @@ def run(ctx):
             ctx.fail('oracle', what, case, expected=exp, observed=obs, how=how)
         flat = out['flat']
         reqs.append({'op': 'refs', 'scopes': [s[:2] for s in flat['scopes']], 'occs': flat['occs']})
-    if ctx.model_ok:
+    if ctx.model_ok and reqs:
         answers = common.run_driver_parallel('C05', reqs)
         for out, a in zip(outs, answers):
             if isinstance(a, dict) and 'error' in a:
@@ -445,7 +479,7 @@ def run(ctx):
                 if model_text != new_code:
                     ctx.tie_broken('correspondence:render',
                                    short({'source': out['src'], 'occ': occs[u], 'jedi': new_code, 'model': model_text}, 1500))
-    else:
+    elif reqs:
         ctx.notes.append('model did not build: correspondence skipped, oracle only')
     # ---- attribute programs: beyond the Scopes fragment, judged by the direct oracle only
     for recs in attr_results:
@@ -476,6 +510,25 @@ def run(ctx):
                       sample={k: v for k, v in case.items()})
             for what, exp, obs in st['fails']:
                 ctx.fail('multimod', what, case, expected=exp, observed=obs, how=mm_how)
+    # ---- programs with parameters passed by keyword: direct oracle only
+    kw_how = ('jedi.Script(source, project=Project(<empty dir>)).get_references(line, column, scope="file") / '
+              '.rename(line, column, new_name=...); both programs executed; `./check C05 --replay <file>` re-runs the clauses')
+    for it, outs_ in zip(kw_items, kw_results):
+        for out in outs_:
+            for b in out['raised']:
+                ctx.count('raised', None, nontrivial=False, bucket='kwparam:' + b)
+            if out['skipped']:
+                ctx.count('kwparam-program', None, nontrivial=False, bucket='skipped: ' + out['skipped'][:40])
+                continue
+            for f in out['features']:
+                ctx.count('kwparam-program', None, nontrivial=True, bucket=f)
+            for rec in out['records']:
+                cs = rec['case']
+                ctx.count('kwparam/' + it['tag'], (cs['source'], cs['line'], cs['column']), nontrivial=rec['n_refs'] > 1,
+                          bucket='refs=%d' % min(rec['n_refs'], 6),
+                          sample={k: cs[k] for k in ('source', 'line', 'column', 'name')})
+                for what, exp, obs in rec['fails']:
+                    ctx.fail('kwparam', what, dict(cs, clause=KW.CLAUSE[what]), expected=exp, observed=obs, how=kw_how)
     try:
         from translator import gen_c05
         lim = gen_c05.limits(common.REPO)
@@ -491,6 +544,9 @@ def run(ctx):
         'names of at most %d characters and projects of more than %d files are outside the stream (documented search '
         'limits of references.py)' % (GM.MIN_GLOBAL_NAME_LEN - 1, GM.MAX_FILES),
         'stream attr (attributes whose spelling coincides with parameters/locals) has no Lean model: direct oracle only',
+        'stream kwparam (parameters of every kind passed by keyword at call sites) is judged by the direct oracle; '
+        'behaviour = (printed text, class of the terminating exception) of executing the program; keywords that end up '
+        'as keys of a ** dictionary are strings: never start points, but counted when reported or rewritten',
         'fragment and flat table as for C03 (harness/gen/scopes.py); the text-level rename model is '
         '"replace the value of exactly the leaves in refs" which Props.C05.render_rename proves equal to parso\'s render',
         'behaviour = event log of an AST-instrumented execution (every name read, unique tokens for assigned constants, '
@@ -519,6 +575,8 @@ def replay(ctx, payload):
     inp = payload['input']
     if 'files' in inp:
         return MM.replay(payload)
+    if inp.get('program') == 'kwparam':
+        return KW.replay(payload)
     s = jedi.Script(inp['source'], project=jedi.Project(EMPTY_PROJECT))
     print(inp['source'])
     print('references:', [(d.line, d.column) for d in s.get_references(inp['line'], inp['column'], scope='file')])
